@@ -50,6 +50,11 @@ def inputs(tier):
     out += [F.D([([1], [2])]), F.D([([1, 2], [2, 3]), ([3], [1])]), F.D([([1], [2]), ([1], [2])], ids=[3, 1]),
             F.D([(["a"], ["b", "c"])], nodes=["a", "b", "c", "z"]), F.D([], nodes=[1, 2]),
             F.D([([1, 2], [3]), ([3], [4, 5])], eattr={0: {"weight": 2}})]
+    # labels / IDs of other types (float, tuple, mixed): a function may refuse them, it must still not touch its input
+    base = F.H([[1, 2, 3], [3, 4], [1, 2], [4]], nodes=[1, 2, 3, 4, 5], eattr={0: {"weight": 2}})
+    for j, (_, nm) in enumerate(F.exotic_label_maps(base["nodes"])):
+        eids = [[i + 0.5 for i in range(4)], [("e", i) for i in range(4)], ["a", 7, (1, 2), 2.5], list(range(4))][j % 4]
+        out.append(F.relabel(base, node_map=nm, edge_ids=eids))
     return out
 
 
@@ -74,6 +79,8 @@ def programs():
             if name in EXCLUDE:
                 continue
             progs.append(("fn", name))
+    for c in ("Hypergraph", "DiHypergraph", "SimplicialComplex"):
+        progs.append(("ctor", c))
     for m in ("copy", "dual", "cleanup", "__str__", "__len__", "__iter__", "__contains__", "__getitem__",
               "__lshift__", "has_simplex", "num_nodes", "num_edges", "is_frozen", "nodes", "edges", "__getstate__"):
         progs.append(("method", m))
@@ -225,7 +232,21 @@ def _edit_result(net):
     """A network returned by the call is edited in place afterwards (as its new owner may): if it shares member /
     membership sets with the input network, the input changes."""
     cls = type(net).__name__
-    if cls not in ("Hypergraph", "DiHypergraph") or getattr(net, "frozen", False) is True:
+    if cls not in ("Hypergraph", "DiHypergraph", "SimplicialComplex") or getattr(net, "frozen", False) is True:
+        return
+    # attribute tables of a returned network are its own: new keys at network, node and edge level
+    try:
+        net["MUT"] = 1
+        net.set_node_attributes({n: {"MUT": 1} for n in list(net.nodes)[:2]})
+        net.set_edge_attributes({e: {"MUT": 1} for e in list(net.edges)[:2]})
+    except Exception:  # noqa: BLE001
+        pass
+    if cls == "SimplicialComplex":
+        try:
+            net.add_simplex(["MUT", "MUT2"])
+            net.remove_simplex_ids_from(list(net.edges)[:1])
+        except Exception:  # noqa: BLE001
+            pass
         return
     for e in list(net.edges)[:4]:
         try:
@@ -246,6 +267,17 @@ def _edit_result(net):
             pass
 
 
+def _clear_results(r):
+    """Second phase, judged separately (clearing a shared table could undo what the first phase revealed): the returned
+    networks are emptied in place."""
+    for net in (r if isinstance(r, (tuple, list)) else [r]):
+        if type(net).__name__ in ("Hypergraph", "DiHypergraph", "SimplicialComplex") and getattr(net, "frozen", False) is not True:
+            try:
+                net.clear()
+            except Exception:  # noqa: BLE001
+                pass
+
+
 def _calls_for(kind, name, H, tmp):
     """Yield (label, thunk) pairs for one program on one input."""
     import xgi
@@ -259,6 +291,21 @@ def _calls_for(kind, name, H, tmp):
         for kw in combos:
             yield f"xgi.{name}(H, **{ {k: (v if not isinstance(v, dict) or len(v) < 4 else '<dict>') for k, v in kw.items()} })", \
                 (lambda f=f, kw=kw: f(H, **kw))
+    elif kind == "ctor":
+        # a network handed to a class constructor (with and without network attributes given as keywords), and to a
+        # converter twice with the same create_using target
+        cls = getattr(xgi, name)
+        conv = {"Hypergraph": xgi.to_hypergraph, "DiHypergraph": xgi.to_dihypergraph, "SimplicialComplex": xgi.to_simplicial_complex}[name]
+        yield f"xgi.{name}(H)", lambda: cls(H)
+        yield f"xgi.{name}(H, name='ctor', extra=[1])", lambda: cls(H, name="ctor", extra=[1])
+
+        def twice():
+            T = cls()
+            conv(H, create_using=T)
+            conv(cls(), create_using=T)  # re-using the target clears it
+            return T
+
+        yield f"xgi.to_{name.lower()}(H, create_using=T) twice", twice
     elif kind == "method":
         if name == "cleanup":
             yield "H.cleanup(in_place=False)", lambda: H.cleanup(in_place=False)
@@ -381,7 +428,11 @@ def _run_program(prog):
                 warnings.simplefilter("ignore")
                 try:
                     r = thunk()
-                    _consume(r, accessor=("attrs" in label or label.endswith("[id]") or "getstate" in label or "dumps" in label))
+                    mid = C.state_key(H)  # judged before the result is touched (an edit of the result could undo a change)
+                    if mid == before:
+                        _consume(r, accessor=("attrs" in label or label.endswith("[id]") or "getstate" in label or "dumps" in label))
+                        if C.state_key(H) == before:
+                            _clear_results(r)
                     ok += 1
                     inputs_ok.add(idx)
                 except RecursionError:
@@ -465,7 +516,11 @@ def replay(case):
             warnings.simplefilter("ignore")
             try:
                 _IDS.clear(); _IDS.update(H.nodes); _IDS.update(H.edges)
-                _consume(thunk(), accessor=("attrs" in label or label.endswith("[id]")))
+                r = thunk()
+                if C.state_key(H) == before:
+                    _consume(r, accessor=("attrs" in label or label.endswith("[id]") or "getstate" in label or "dumps" in label))
+                    if C.state_key(H) == before:
+                        _clear_results(r)
             except Exception:  # noqa: BLE001
                 pass
         after = C.state_key(H)
